@@ -97,9 +97,8 @@ fn distinct_uids(pols: &[Pol], req: &Req, store: &Store) -> usize {
 }
 
 pub fn run(tier: Tier, replay_file: Option<&str>) -> i32 {
-    if replay_file.is_some() {
-        eprintln!("C15 replay: re-run the check (cases are identified by fingerprint + texts in the replay file)");
-        return 2;
+    if let Some(p) = replay_file {
+        return replay_by_rerun("C15", p, || run(Tier::Quick, None));
     }
     let ctx = Ctx::new("C15", tier);
     quiet_panics();
